@@ -162,15 +162,16 @@ class IsotropicSolidAngle(BaseProposal):
         """Transform from spherical to Cartesian coordinates. Theta is defined
         on [0, pi] and phi on [0, 2*pi].
         """
-        # convert from radec/degrees
+        # convert from radec/degrees (not in place: the arguments may be the
+        # caller's arrays)
         if self.isradec and convert:
             if self.isdegs:
-                theta += 90.
+                theta = theta + 90.
             else:
-                theta += numpy.pi / 2
+                theta = theta + numpy.pi / 2
         if self.isdegs and convert:
-            phi *= numpy.pi / 180.
-            theta *= numpy.pi / 180.
+            phi = phi * (numpy.pi / 180.)
+            theta = theta * (numpy.pi / 180.)
         stheta = numpy.sin(theta)
         x = stheta * numpy.cos(phi)
         y = stheta * numpy.sin(phi)
